@@ -1,4 +1,13 @@
 //! Correspondence harness: drives the real HyperQueue code (built from /repo's current working tree
 //! with `--cfg it4innovations_hyperqueue_verif`) and prints traces in the line protocol of
-//! /verif/FRAMEWORK.md. One module per component.
+//! /verif/FRAMEWORK.md. One module per component; each exposes `pub fn main(mode: &str, args: &[String])`.
 pub mod util;
+pub mod job;
+pub mod alloc;
+pub mod autoalloc;
+pub mod stream;
+pub mod auth;
+pub mod journal;
+pub mod core;
+pub mod worker;
+pub mod sched;
